@@ -70,7 +70,11 @@ if __name__ == '__main__':
         shutil.rmtree(SF, ignore_errors=True)
     ids = [a for a in argv if not a.startswith('--')]
     os.makedirs(SF, exist_ok=True)
-    ms = [m for m in K.load_mutants() if m['id'].startswith(prefix) and (not ids or any(i in m['id'] for i in ids))]
+    if '--mutants' in sys.argv:
+        prefix = 'mutants'
+        ms = [m for m in K.load_mutants() if not m['id'].startswith('seeded/') and not m['id'].startswith('neutral/') and (not ids or any(i in m['id'] for i in ids))]
+    else:
+        ms = [m for m in K.load_mutants() if m['id'].startswith(prefix) and (not ids or any(i in m['id'] for i in ids))]
     t0 = time.time()
     import queue
     slots = queue.Queue()
@@ -108,7 +112,10 @@ if __name__ == '__main__':
             if res[mid]:
                 missed.append(mid)
             continue
-        own = [o for o in res[mid] if isinstance(p, str) and o.startswith(p + '.')]
+        exp = K.as_list(bym[mid].get('expect'))
+        own = [o for o in res[mid] if (isinstance(p, str) and o.startswith(p + '.')) or (not isinstance(p, str) and (not exp or any(o == e or o.startswith(e) for e in exp)))]
+        if prefix == 'mutants' and exp:
+            own = [o for o in res[mid] if any(o == e or o.startswith(e) for e in exp)] or own
         print('SEED %-24s %-8s %s' % (mid, 'caught' if own else 'MISSED', ','.join(res[mid])))
         if not own:
             missed.append(mid)
